@@ -257,6 +257,22 @@ def run_grid(desc):
                     table = util.FN_FLAGS if mode == 'fn' else util.GL_FLAGS
                     fl = util.flags_of([n for n in names if n in table], table)
                     check_one(mode, list(pats), ex, fl, GRID_NAMES, out, stream='grid')
+    if s == 0:
+        # character escapes that decode to list / brace / group metacharacters: translate() must decode where the matcher does
+        raw_lists = [[r'*.py\x7c*.txt'], [r'\x7bfoo,bar\x7d.py'], [r'a\x7cb'], [r'\x21a', '*'], [r'\x2da', '*'], [r'\x2a'], [r'[\x61-\x63]'],
+                     [r'@\x28a\x7cb\x29'], [r'\\x7c'], [r'{a\x2cb}'], [r'\174'], [r'a\u007cb'], [r'\N{VERTICAL LINE}']]
+        raw_flags = ['RAWCHARS', 'SPLIT', 'BRACE', 'NEGATE', 'MINUSNEGATE', 'EXTMATCH', 'FORCEWIN']
+        raw_names = ['a.py', 'b.txt', 'a.py|b.txt', 'foo.py', 'bar.py', '{foo,bar}.py', 'a', 'b', 'a|b', '!a', '-a', '*', 'c', '@(a|b)', '\\x7c', 'x7c',
+                     '{a,b}', '|', 'x2a', 'zz']
+        for pats in raw_lists:
+            for i in range(1 << len(raw_flags)):
+                names = [n for j, n in enumerate(raw_flags) if i >> j & 1]
+                for mode in ('fn', 'gl'):
+                    table = util.FN_FLAGS if mode == 'fn' else util.GL_FLAGS
+                    check_one(mode, list(pats), None, util.flags_of(names, table), raw_names, out, stream='grid-raw')
+                    if all(p_.isascii() for p_ in pats) and 'N{' not in pats[0] and '\\u' not in pats[0]:
+                        check_one(mode, [p_.encode() for p_ in pats], None, util.flags_of(names, table), [n.encode() for n in raw_names], out,
+                                  stream='grid-raw-bytes')
     out.sample({'stream': 'grid', 'lists': len(GRID_LISTS), 'exclude_forms': len(GRID_EXCL), 'flag_subsets': 1 << len(GRID_FLAGS)})
     return out
 
